@@ -288,17 +288,19 @@ pub fn plans(ctx: &WorkerCtx) -> Vec<Plan> {
     let fr = [(0.0, 0.0)];
     let base = Opts { n32: 2, n64: 3, ..Default::default() };
     let mut v = vec![];
-    v.push(Plan { name: "one limiter, single events".into(), cfgs: fam::singles(&lim, &fr), alpha_for: Box::new(|c: &Cfg| alphabet(c.machines.len(), false)), opts: Opts { depth: if q { 6 } else { 8 }, ..base.clone() } });
-    v.push(Plan { name: "one limiter, all pairs of events as batches".into(), cfgs: fam::singles(&lim, &fr), alpha_for: Box::new(|c: &Cfg| alphabet(c.machines.len(), true)), opts: Opts { depth: if q { 3 } else { 4 }, ..base.clone() } });
+    v.push(Plan { name: "one limiter, single events".into(), cfgs: fam::singles(&lim, &fr), alpha_for: Box::new(|c: &Cfg| alphabet(c.machines.len(), false)), opts: Opts { depth: if q { 6 } else { 8 }, ..base.clone() }, walk: None });
+    v.push(Plan { name: "one limiter, all pairs of events as batches".into(), cfgs: fam::singles(&lim, &fr), alpha_for: Box::new(|c: &Cfg| alphabet(c.machines.len(), true)), opts: Opts { depth: if q { 3 } else { 4 }, ..base.clone() }, walk: None });
     let sub: Vec<_> = lim.iter().step_by(if q { 5 } else { 2 }).cloned().collect();
     let other: Vec<_> = lim.iter().skip(3).step_by(if q { 17 } else { 7 }).cloned().collect();
     let mut two = fam::all_pairs(&sub, &other, &fr);
     two.extend(fam::all_pairs(&other, &sub, &fr).into_iter().step_by(2));
-    v.push(Plan { name: "two limiters (completions for the other machine and unknown ids)".into(), cfgs: two, alpha_for: Box::new(|c: &Cfg| alphabet(c.machines.len(), false)), opts: Opts { depth: if q { 4 } else { 6 }, ..base.clone() } });
+    v.push(Plan { name: "two limiters (completions for the other machine and unknown ids)".into(), cfgs: two, alpha_for: Box::new(|c: &Cfg| alphabet(c.machines.len(), false)), opts: Opts { depth: if q { 4 } else { 6 }, ..base.clone() }, walk: None });
     // limits inside general machines, with tight padding budgets around them
     let g2: Vec<_> = fam::g2(if q { 1499 } else { 149 }, 3).into_iter().filter(|(_, m)| m.states.iter().any(|s| s.action.map(|a| has_limit(&a)).unwrap_or(false))).collect();
-    v.push(Plan { name: "G2 machines with limited actions (tight budgets, counters, signals around the limit)".into(), cfgs: fam::singles(&g2, &[(0.5, 0.5)]), alpha_for: Box::new(|c: &Cfg| Alphabet { batches: all_single_events(c.machines.len(), false).into_iter().map(|e| vec![e]).collect(), deltas: vec![0] }), opts: Opts { depth: if q { 4 } else { 6 }, ..base.clone() } });
-    v.push(Plan { name: "G2 pairs with limited actions".into(), cfgs: fam::pairs_strided(&g2, 31, 7, &[(0.5, 0.5), (0.0, 0.0)]), alpha_for: Box::new(|c: &Cfg| Alphabet { batches: all_single_events(c.machines.len(), false).into_iter().map(|e| vec![e]).collect(), deltas: vec![0] }), opts: Opts { depth: if q { 3 } else { 4 }, ..base.clone() } });
+    v.push(Plan { name: "G2 machines with limited actions (tight budgets, counters, signals around the limit)".into(), cfgs: fam::singles(&g2, &[(0.5, 0.5)]), alpha_for: Box::new(|c: &Cfg| Alphabet { batches: all_single_events(c.machines.len(), false).into_iter().map(|e| vec![e]).collect(), deltas: vec![0] }), opts: Opts { depth: if q { 4 } else { 6 }, ..base.clone() }, walk: None });
+    v.push(Plan { name: "G2 pairs with limited actions".into(), cfgs: fam::pairs_strided(&g2, 31, 7, &[(0.5, 0.5), (0.0, 0.0)]), alpha_for: Box::new(|c: &Cfg| Alphabet { batches: all_single_events(c.machines.len(), false).into_iter().map(|e| vec![e]).collect(), deltas: vec![0] }), opts: Opts { depth: if q { 3 } else { 4 }, ..base.clone() }, walk: None });
+    let corp = fam::corpus(ctx.seed.wrapping_add(51), if q { 150 } else { 1500 });
+    v.push(Plan { name: "corpus of generated 3-6 state machines (sampled), singles and pairs: BFS plus long random walks".into(), cfgs: { let mut c = fam::singles(&corp, &[(0.5, 0.5)]); c.extend(fam::pairs_strided(&corp, 31, 7, &[(0.0, 0.0), (0.5, 0.5)])); c }, alpha_for: Box::new(|c: &Cfg| super::c05::alphabet(c.machines.len(), vec![0], false)), opts: Opts { depth: if q { 1 } else { 2 }, ..base.clone() }, walk: Some((if q { 3 } else { 6 }, 300)) });
     v
 }
 
